@@ -296,3 +296,17 @@ contract(A + "_generate_group_population", params=dict(n_groups="int", n_agents=
              ("population-untouched", "unchanged(self._population) and heap_unchanged()"),
          ],
          properties=["C10"])
+
+# ---- overrides of the greedy selection in optimizer classes (behavioural subtyping: they must stay elitist, C17; the one that
+# keeps the base rule is held to the full base contract, C16) --------------------------------------------------------------------
+ELITIST_SELECT = [("challenger-only-if-strictly-cheaper", "implies(result is new_agent and new_agent is not agent, new_agent.cost < agent.cost)"),
+                  ("otherwise-the-incumbent", "result is new_agent or result is agent or (fresh(result) and view_eq(result, agent))"),
+                  ("pure", "heap_unchanged()")]
+contract("pyvolutionary.bee_colony.bee_colony_optimization.BeeColonyOptimization._greedy_select_agent",
+         params=dict(agent="Bee", new_agent="Bee"), returns="Bee", properties=["C16", "C17"],
+         ensures=[("challenger-iff-strictly-cheaper", "implies(new_agent.cost < agent.cost, result is new_agent)"),
+                  ("incumbent-kept-otherwise", "implies(not (new_agent.cost < agent.cost), fresh(result) and view_eq(result, agent))")]
+         + ELITIST_SELECT)
+contract("pyvolutionary.bat.bat_optimization.BatOptimization._greedy_select_agent",
+         params=dict(agent="Bat", new_agent="Bat"), returns="Bat", properties=["C17"], assigns=["rng"],
+         ensures=ELITIST_SELECT)
